@@ -130,6 +130,17 @@ impl Node {
     pub fn is_busy(&self) -> bool {
         self.busy.is_some()
     }
+    /// What the node is doing, for diagnostics.
+    pub fn status(&self) -> String {
+        match (&self.run, &self.busy) {
+            (None, _) => "down".into(),
+            (Some(_), Some((_, input, before, _))) => format!("busy with {input:?} since view {} {:?}", before.view.0, before.phase),
+            (Some(r), None) => match r.replica.as_ref() {
+                Some(x) => format!("idle in view {} {:?}", x.snapshot().view.0, x.snapshot().phase),
+                None => "up without replica".into(),
+            },
+        }
+    }
     pub fn snapshot(&self) -> Option<Snapshot> {
         self.run.as_ref()?.replica.as_ref().map(|r| r.snapshot())
     }
@@ -148,6 +159,8 @@ pub struct SimCfg {
 }
 
 pub struct World {
+    /// Diagnostics only: how much of the pool the trace has printed.
+    pub trace_pool_seen: std::cell::Cell<usize>,
     pub cfg: SimCfg,
     pub committee: Committee,
     pub nodes: Vec<Option<Node>>,
@@ -165,7 +178,7 @@ impl World {
     pub async fn new(cfg: SimCfg) -> Result<Self, String> {
         let committee = cfg.spec.build();
         let index = committee.schedule.keys().enumerate().map(|(i, k)| (k.clone(), i)).collect();
-        let mut w = World { committee, nodes: vec![], pool: vec![], steps: vec![], seq: 0, driver_errors: vec![], model: None, index, cfg };
+        let mut w = World { trace_pool_seen: Default::default(), committee, nodes: vec![], pool: vec![], steps: vec![], seq: 0, driver_errors: vec![], model: None, index, cfg };
         for i in 0..w.cfg.spec.n() {
             if w.cfg.byz[i] {
                 w.nodes.push(None);
